@@ -13,6 +13,8 @@ CROSS = {
     "C01-5": ["C09"], "C02-2": ["C20"], "C02-5": ["C20"], "C08-4": ["C05", "C12"], "C08-5": ["C07"],
     "C02-7": ["C09"], "C13-8": ["C18"], "C08-6": ["C04"], "C08-7": ["C18"], "C08-8": ["C07"],
     "C06-6": ["C07:thorough"],
+    "C01-9": ["C09"], "C04-9": ["C05"], "C06-9": ["C04"], "C08-9": ["C07"], "C08-10": ["C04"],
+    "C08-11": ["C18", "C13"], "C02-11": ["C20"],
 }
 
 
